@@ -51,7 +51,7 @@ type Monitor struct {
 	// Isolate, when it returns a non-empty label for case i, makes the driver run that case alone in
 	// its own worker process with its own race log; process-level evidence (deaths, race reports)
 	// from that process is keyed under "<label>/...". Ordinary workers skip such cases.
-	Isolate func(tier string, i int) string
+	Isolate   func(tier string, i int) string
 	PostChunk func(scratch string, chunk int, res *Result)
 }
 
